@@ -13,7 +13,7 @@ for spec in "$@"; do
   rep=$(echo "$first" | sed -n 's/.*replay=\([^ ]*\).*/\1/p')
   why=""; [ -n "$rep" ] && why=$(grep -E "^(request|oracle|broken):" $rep | cut -c1-260 | tr '\n' '|')
   echo "$name $pid tier=${TIER:-quick} exit=$rc violations=$nv $(echo "$first" | grep -o 'no-failing-input-found') :: $why"
-  { echo "check $pid tier=${TIER:-quick} against the changed tree: exit=$rc, $nv VIOLATION line(s)"; echo "$first"; echo "$why"; echo "$out" | tail -1; echo; } >> seeded/$name/detection.txt
+  mkdir -p seeded/$name; { echo "check $pid tier=${TIER:-quick} against the changed tree: exit=$rc, $nv VIOLATION line(s)"; echo "$first"; echo "$why"; echo "$out" | tail -1; echo; } >> seeded/$name/detection.txt
 done
 # restore generated files for the unchanged tree
-python3 -c "import sys; sys.path.insert(0,'tools'); import translate; translate.run("/repo")" >/dev/null
+python3 tools/translate.py >/dev/null
